@@ -1573,7 +1573,7 @@ def search(ctx, res, broken):
 def replay(ctx, obj):
     case = obj.get('case') or {}
     r = Result()
-    if 'fault' in case:
+    if 'fault' in case and 'stream' not in case:
         it = [case['fault'], [tuple(c) for c in case['chain']], case['panel']]
         judge_planting(ctx, r, it, run_plantings([it])[0])
     elif 'missing_code' in case:
